@@ -20,6 +20,8 @@ def dag(g, p, weighted=None, dtype=None):
     weighted = g.random() < 0.4 if weighted is None else weighted
     dtype = dtype or (float if weighted else _dtype(g))
     A = G.rand_dag(g, p, weighted=weighted)
+    if g.random() < 0.04:
+        A[g.randrange(p), g.randrange(p)] = 1      # possibly a self-loop: the diagonal need not be empty
     if g.random() < 0.15:
         return np.asfortranarray(A.astype(dtype))
     return A.astype(dtype)
@@ -32,6 +34,9 @@ def pdag(g, p, q=None, dtype=None):
         for j in range(p):
             if A[i, j] != 0 and A[j, i] == 0 and g.random() < q:
                 A[j, i] = 1
+    if g.random() < 0.05:
+        d = g.randrange(p)
+        A[d, d] = 1                                  # a self-loop
     return A.astype(dtype or _dtype(g))
 
 
